@@ -318,50 +318,70 @@ def engine_b(c, rng):
                     alive = srv.workers_alive()
                     if not m or int(m.group(1)) != threads or len(alive) != threads:
                         bad = "Spawned %s, census %s, expected %d" % (m.group(1) if m else None, alive, threads)
-                elif s == "request_allocation_size":
-                    data, end = srv.request(b"POST /file-upload/initiate?name=a&lastModified=1&size=1 HTTP/1.1\r\nHost: x\r\n\r\n")
-                    m = re.search(rb"request_allocation_size_in_bytes is (\d+)", data)
-                    want = int(eff[s]) - 4000 if int(eff[s]) > 4000 else int(eff[s])
-                    if not m or int(m.group(1)) != want:
-                        bad = "buffer echo %s, expected %d" % (m.group(1) if m else None, want)
                 else:
-                    origin = "https://probe.example" if s != "cors_allow_origins" else eff[s].split(",")[0]
-                    overridden = [x for x in (ev, fv, cv) if x and x != eff[s]]
-                    if s == "cors_allow_origins" and eff[s] == "" and overridden:
-                        origin = overridden[0].split(",")[0]   # an origin of a lower-precedence source that the empty list overrides
-                    if s == "cors_allow_all":
-                        origin = "https://foreign.example"
-                    data, end = srv.request(("OPTIONS %s HTTP/1.1\r\nHost: x\r\nOrigin: %s\r\nAccess-Control-Request-Method: TRACE\r\nAccess-Control-Request-Headers: X-Zzz\r\n\r\n" % (f, origin)).encode())
-                    r = httpstrict.parse(data, head_request=True)
-                    g = lambda n: r.get(n)
-                    if s == "cors_allow_all":
-                        echoed = g("access-control-allow-origin") == origin
-                        if echoed != (eff[s] == "true"):
-                            bad = "foreign origin echoed=%s with allow-all=%s" % (echoed, eff[s])
-                    elif s == "cors_allow_origins" and eff[s] == "":
-                        if g("access-control-allow-origin") is not None:
-                            bad = "zero origins are configured (the empty list has the highest precedence) but %r is granted" % origin
-                    elif s == "cors_allow_origins":
-                        if g("access-control-allow-origin") != origin:
-                            bad = "configured origin %r not granted (%r)" % (origin, g("access-control-allow-origin"))
+                    def observe_runtime():
+                        bad = None
+                        if s == "request_allocation_size":
+                            data, end = srv.request(b"POST /file-upload/initiate?name=a&lastModified=1&size=1 HTTP/1.1\r\nHost: x\r\n\r\n")
+                            m = re.search(rb"request_allocation_size_in_bytes is (\d+)", data)
+                            want = int(eff[s]) - 4000 if int(eff[s]) > 4000 else int(eff[s])
+                            if not m or int(m.group(1)) != want:
+                                bad = "buffer echo %s, expected %d" % (m.group(1) if m else None, want)
                         else:
-                            other = [x for x in values_for(s, rng)][0]
-                    elif s == "cors_allow_methods":
-                        if norm(s, g("access-control-allow-methods") or "") != norm(s, eff[s]):
-                            bad = "Allow-Methods %r, expected %r" % (g("access-control-allow-methods"), eff[s])
-                    elif s == "cors_allow_headers":
-                        if norm(s, (g("access-control-allow-headers") or "").lower()) != norm(s, eff[s].lower()):
-                            bad = "Allow-Headers %r, expected %r" % (g("access-control-allow-headers"), eff[s])
-                    elif s == "cors_expose_headers":
-                        if norm(s, (g("access-control-expose-headers") or "").lower()) != norm(s, eff[s].lower()):
-                            bad = "Expose-Headers %r, expected %r" % (g("access-control-expose-headers"), eff[s])
-                    elif s == "cors_max_age":
-                        if (g("access-control-max-age") or "").strip() != eff[s]:
-                            bad = "Max-Age %r, expected %r" % (g("access-control-max-age"), eff[s])
-                    elif s == "cors_allow_credentials":
-                        has = (g("access-control-allow-credentials") or "").lower() == "true"
-                        if has != (eff[s] == "true"):
-                            bad = "credentials header present=%s with setting %r" % (has, eff[s])
+                            origin = "https://probe.example" if s != "cors_allow_origins" else eff[s].split(",")[0]
+                            overridden = [x for x in (ev, fv, cv) if x and x != eff[s]]
+                            if s == "cors_allow_origins" and eff[s] == "" and overridden:
+                                origin = overridden[0].split(",")[0]   # an origin of a lower-precedence source that the empty list overrides
+                            if s == "cors_allow_all":
+                                origin = "https://foreign.example"
+                            data, end = srv.request(("OPTIONS %s HTTP/1.1\r\nHost: x\r\nOrigin: %s\r\nAccess-Control-Request-Method: TRACE\r\nAccess-Control-Request-Headers: X-Zzz\r\n\r\n" % (f, origin)).encode())
+                            r = httpstrict.parse(data, head_request=True)
+                            g = lambda n: r.get(n)
+                            if s == "cors_allow_all":
+                                echoed = g("access-control-allow-origin") == origin
+                                if echoed != (eff[s] == "true"):
+                                    bad = "foreign origin echoed=%s with allow-all=%s" % (echoed, eff[s])
+                            elif s == "cors_allow_origins" and eff[s] == "":
+                                if g("access-control-allow-origin") is not None:
+                                    bad = "zero origins are configured (the empty list has the highest precedence) but %r is granted" % origin
+                            elif s == "cors_allow_origins":
+                                if g("access-control-allow-origin") != origin:
+                                    bad = "configured origin %r not granted (%r)" % (origin, g("access-control-allow-origin"))
+                                else:
+                                    other = [x for x in values_for(s, rng)][0]
+                            elif s == "cors_allow_methods":
+                                if norm(s, g("access-control-allow-methods") or "") != norm(s, eff[s]):
+                                    bad = "Allow-Methods %r, expected %r" % (g("access-control-allow-methods"), eff[s])
+                            elif s == "cors_allow_headers":
+                                if norm(s, (g("access-control-allow-headers") or "").lower()) != norm(s, eff[s].lower()):
+                                    bad = "Allow-Headers %r, expected %r" % (g("access-control-allow-headers"), eff[s])
+                            elif s == "cors_expose_headers":
+                                if norm(s, (g("access-control-expose-headers") or "").lower()) != norm(s, eff[s].lower()):
+                                    bad = "Expose-Headers %r, expected %r" % (g("access-control-expose-headers"), eff[s])
+                            elif s == "cors_max_age":
+                                if (g("access-control-max-age") or "").strip() != eff[s]:
+                                    bad = "Max-Age %r, expected %r" % (g("access-control-max-age"), eff[s])
+                            elif s == "cors_allow_credentials":
+                                has = (g("access-control-allow-credentials") or "").lower() == "true"
+                                if has != (eff[s] == "true"):
+                                    bad = "credentials header present=%s with setting %r" % (has, eff[s])
+
+                        return bad
+                    bad = observe_runtime()
+                    after_touch = False
+                    if bad is None and os.path.exists(cfgfile):
+                        # the owner touches the configuration file while the server runs (same settings, new comment, newer
+                        # mtime): the command line still wins and nothing else changes
+                        with open(cfgfile, "a") as fh:
+                            fh.write("\n# edited while the server runs\n")
+                        st = os.stat(cfgfile)
+                        os.utime(cfgfile, (st.st_atime + 7, st.st_mtime + 7))
+                        srv.request(("GET %s HTTP/1.1\r\nHost: x\r\n\r\n" % f).encode())
+                        bad = observe_runtime()
+                        after_touch = True
+                        c.count("observed_again_after_touching_the_config_file")
+                        if bad:
+                            srcs = srcs + ":after-config-file-touch"
                 if bad:
                     c.violation("C12:binary:setting=%s:sources=%s" % (s, srcs), "running server does not use the expected %s=%r: %s" % (s, eff[s], bad), rp)
             finally:
